@@ -576,42 +576,83 @@ func ruleSQL(c *Ctx) {
 	if fv == nil {
 		c.R.Anchor("ext/sql.fmtVal")
 	} else {
-		var sw *ast.SwitchStmt
-		inspectNoLit(fv.Body, func(x ast.Node) bool {
-			if s, ok := x.(*ast.SwitchStmt); ok && sw == nil {
-				sw = s
-			}
-			return true
-		})
-		if sw == nil {
-			c.R.Bad("ext/sql.fmtVal", "SQL-3 switch over the value's type", fv.Pos(), "not found")
-		} else {
-			cs := c.switchCasesByConst(sw)
-			arm := func(k string) string {
-				if cc := cs[k]; cc != nil {
-					return c.sxN(fv, cc.Body)
+		// case analysis by path enumeration: a switch over v.Type, an if/else chain and early returns are the same thing
+		tc := c.fnTerms(fv)
+		paths, pok := c.retPaths(fv.Body.List)
+		type armT struct {
+			extras []string
+			ret    string
+			end    string
+		}
+		arms := map[string][]armT{}
+		for _, p := range paths {
+			kind := "other"
+			var extras []string
+			for _, ct := range tc.pathTerms(p) {
+				op, as := splitTerm(ct)
+				if op == "eq" && len(as) == 2 && (as[0] == "p0.Type" || as[1] == "p0.Type") {
+					k := as[0]
+					if k == "p0.Type" {
+						k = as[1]
+					}
+					kind = k
+					continue
 				}
-				return ""
+				if op == "not" && strings.HasPrefix(as[0], "eq(") && strings.Contains(as[0], "p0.Type") {
+					continue
+				}
+				extras = append(extras, ct)
 			}
-			c.R.Check(arm("types.Str") == "[(ReturnStmt Results:[(CallExpr Fun:escape Args:[(SelectorExpr (CallExpr Fun:(SelectorExpr $p0 Sel:Str)) Sel:V)])])]", "ext/sql.fmtVal", "SQL-2 strings go through escape", sw.Pos(), "return escape(v.Str().V)", "a string value is emitted without escape()")
-			c.R.Check(strings.Contains(arm("types.Bool"), "Results:[True]") && strings.Contains(arm("types.Bool"), "Results:[False]"), "ext/sql.fmtVal", "SQL-3 bool -> 1/0", sw.Pos(), "True/False constants", "booleans are not emitted as the True/False constants")
+			a := armT{extras: extras, end: p.end}
+			if p.ret != nil && len(p.ret.Results) == 1 {
+				a.ret = tc.tr(p.ret.Results[0])
+			}
+			arms[kind] = append(arms[kind], a)
+		}
+		pos := fv.Pos()
+		if !pok {
+			c.R.Unk("ext/sql.fmtVal", "SQL-3 case analysis over the value's type", pos, "fmtVal is not loop-free: its paths cannot be enumerated")
+		} else {
+			retOf := func(kind string, extra string) (string, bool) {
+				for _, a := range arms[kind] {
+					if (extra == "" && len(a.extras) == 0) || (len(a.extras) == 1 && a.extras[0] == extra) {
+						return a.ret, a.end == "return"
+					}
+				}
+				return "", false
+			}
+			sr, ok1 := retOf("types.Str", "")
+			c.R.Check(ok1 && sr == "ext/sql.escape(p0:str.V)" && len(arms["types.Str"]) == 1, "ext/sql.fmtVal", "SQL-2 strings go through escape", pos, "return escape(v.Str().V)", "a string value is emitted without escape(): "+sr)
 			tv, fvv := c.Obj("ext/sql", "True"), c.Obj("ext/sql", "False")
-			okTF := false
+			okTF, tT, tF := false, "?", "?"
 			if t, ok := tv.(*types.Const); ok {
 				if f, ok := fvv.(*types.Const); ok {
 					okTF = constant.StringVal(t.Val()) == "1" && constant.StringVal(f.Val()) == "0"
+					tT, tF = "const:"+t.Val().ExactString(), "const:"+f.Val().ExactString()
 				}
 			}
+			bt, okb1 := retOf("types.Bool", "p0:bool.V")
+			bf, okb2 := retOf("types.Bool", "not(p0:bool.V)")
+			c.R.Check(okb1 && okb2 && bt == tT && bf == tF && len(arms["types.Bool"]) == 2, "ext/sql.fmtVal", "SQL-3 bool -> 1/0", pos, "True/False constants", "booleans are not emitted as the True/False constants")
 			c.R.Check(okTF, "ext/sql.True/False", "SQL-3 True=\"1\" False=\"0\"", token.NoPos, "exact SQL form", "boolean constants changed")
-			c.R.Check(strings.Contains(arm("types.Num"), "Sel:IsInt") && strings.Contains(arm("types.Num"), "Sel:FmtInt") && strings.Contains(arm("types.Num"), "Sel:FmtFloat"), "ext/sql.fmtVal", "SQL-3 num -> exact decimal text", sw.Pos(), "FmtInt under IsInt (INTGUARD-1), FmtFloat otherwise", "numbers are not formatted by FmtInt/FmtFloat")
-			c.R.Check(strings.Contains(arm("types.Time"), "\"from_unixtime(%d)\"") && strings.Contains(arm("types.Time"), "Sel:Unix"), "ext/sql.fmtVal", "SQL-3 time -> from_unixtime(seconds)", sw.Pos(), "instant as Unix seconds", "times are not emitted as from_unixtime(<Unix seconds>)")
-			def := cs["default"]
-			c.R.Check(def != nil && hasAssertFalse(c, def.Body), "ext/sql.fmtVal", "SQL-3 other kinds fail", sw.Pos(), "unsupported values are refused", "default arm does not fail")
-			c.R.Check(len(cs) == 5, "ext/sql.fmtVal", "SQL-3 exactly bool/num/str/time/default", sw.Pos(), "no other kind is formatted", fmt.Sprintf("%d arms", len(cs)))
+			ni, okn1 := retOf("types.Num", "m:val.NumVal.IsInt(p0:num)")
+			nf, okn2 := retOf("types.Num", "not(m:val.NumVal.IsInt(p0:num))")
+			c.R.Check(okn1 && okn2 && ni == "util.FmtInt(m:val.NumVal.Int(p0:num))" && nf == "util.FmtFloat(p0:num.V)" && len(arms["types.Num"]) == 2, "ext/sql.fmtVal", "SQL-3 num -> exact decimal text", pos, "FmtInt under IsInt (INTGUARD-1), FmtFloat otherwise", "numbers are not formatted by FmtInt under IsInt / FmtFloat otherwise: "+ni+" / "+nf)
+			tr, okt := retOf("types.Time", "")
+			c.R.Check(okt && tr == "fmt.Sprintf(const:\"from_unixtime(%d)\",m:time.Time.Unix(p0:time.V))" && len(arms["types.Time"]) == 1, "ext/sql.fmtVal", "SQL-3 time -> from_unixtime(seconds)", pos, "instant as Unix seconds", "times are not emitted as from_unixtime(<Unix seconds>): "+tr)
+			okDef := len(arms["other"]) > 0
+			for _, a := range arms["other"] {
+				if a.end != "panic" {
+					okDef = false
+				}
+			}
+			c.R.Check(okDef, "ext/sql.fmtVal", "SQL-3 other kinds fail", pos, "unsupported values are refused", "a value of another kind does not fail")
+			c.R.Check(len(arms) == 5, "ext/sql.fmtVal", "SQL-3 exactly bool/num/str/time/default", pos, "no other kind is formatted", fmt.Sprintf("%d kinds", len(arms)))
 		}
 	}
 	if es := c.FuncDecl("ext/sql", "escape"); es != nil {
-		ok := c.sxN(es, es.Body.List) == "[(ReturnStmt Results:[(CallExpr Fun:(SelectorExpr strconv Sel:Quote) Args:[$p0])])]"
+		sigs, sok := c.pathSigs(es, es.Body, true)
+		ok := sok && len(sigs) == 1 && sigs[0] == "if{} do{} return{strconv.Quote(p0)}"
 		c.R.Check(ok, "ext/sql.escape", "SQL-2 escape is strconv.Quote and nothing else", es.Pos(), "quotes, backslashes and control characters are escaped: no character of the operand can end the literal", "escape() has a path that does not go through strconv.Quote (a hand-written fast path must escape at least \" and \\)")
 	} else {
 		c.R.Anchor("ext/sql.escape")
@@ -819,9 +860,35 @@ func ruleDebug(c *Ctx) {
 		c.R.Anchor("debug.render.placeString")
 	}
 	if rp := c.FuncDecl("debug", "replace"); rp != nil {
-		s := c.sxN(rp, rp.Body.List)
-		ok := strings.HasPrefix(s, "[(AssignStmt Lhs:[$0] Tok::= Rhs:[(CallExpr Fun:(ArrayType Elt:rune) Args:[(CallExpr Fun:(SelectorExpr $p0 Sel:String))])])") && strings.Contains(s, "(IfStmt Cond:(BinaryExpr $p2 Op:> Y:(CallExpr Fun:len Args:[$0]))")
-		c.R.Check(ok, "debug.replace", "DB-5 replaces a rune range, clamped to the line", rp.Pos(), "[]rune slicing with the end clamped", "replace no longer works on runes with a clamped end")
+		// by paths: whatever the arrangement, the line becomes runes[0:start] + str (+ runes[end:] iff end <= len(runes))
+		tc := c.fnTerms(rp)
+		paths, pok := c.retPaths(rp.Body.List)
+		ok := pok && len(paths) == 2
+		const R = "conv:[]rune(m:strings.Builder.String(p0))"
+		seen := map[string]bool{}
+		for _, p := range paths {
+			var writes []string
+			for _, st := range p.stmts {
+				t := tc.stmtTerm(st)
+				if op, as := splitTerm(t); op == "m:strings.Builder.WriteString" && len(as) == 2 && as[0] == "p0" {
+					writes = append(writes, as[1])
+				}
+			}
+			conds := strings.Join(tc.pathTerms(p), "&")
+			w := strings.Join(writes, "+")
+			if os.Getenv("YAE_DEBUG") != "" {
+				fmt.Println("DB-5 path:", conds, "=>", w)
+			}
+			switch conds {
+			case "lt(builtin.len(" + R + "),p2)":
+				seen["over"] = w == "conv:string(slice("+R+",const:0,p1))+p3"
+			case "le(p2,builtin.len(" + R + "))":
+				seen["in"] = w == "conv:string(slice("+R+",const:0,p1))+p3+conv:string(slice("+R+",p2,))"
+			default:
+				ok = false
+			}
+		}
+		c.R.Check(ok && seen["over"] && seen["in"], "debug.replace", "DB-5 replaces a rune range, clamped to the line", rp.Pos(), "[]rune slicing with the end clamped", "replace no longer writes runes[0:start] + str + runes[end:] with the suffix dropped when end exceeds the line")
 	}
 	if rc := c.FuncDecl("debug", "Record.Rec"); rc != nil {
 		s := c.sxN(rc, rc.Body)
